@@ -17,6 +17,15 @@ Fixpoint bench_returns (prev : Q) (closes : list Q) : list Q :=
   match closes with [] => [] | c :: t => (c / prev - 1) :: bench_returns c t end.
 Fixpoint prod1 (rs : list Q) : Q := match rs with [] => 1 | r :: t => (1 + r) * prod1 t end.
 
+(* generate_benchmark_daily_returns_and_portfolio: a benchmark is a list of (instrument, weight); each day's benchmark return is the
+   weighted sum of the members' daily returns divided by the sum of the weights *)
+Fixpoint wsum (weights : list Q) (xs : list Q) : Q :=
+  match weights, xs with w :: ws, x :: t => w * x + wsum ws t | _, _ => 0 end.
+Definition bench_day (weights : list Q) (member_returns : list Q) : Q := wsum weights member_returns / qsum weights.
+(* days is the list of the members' returns per day *)
+Definition bench_series (weights : list Q) (days : list (list Q)) : list Q := map (bench_day weights) days.
+Definition transpose1 (rs : list Q) : list (list Q) := map (fun r => [r]) rs.
+
 Section Annualised.
   Variable pow : Q -> Q -> Q.           (* real exponentiation: runtime (Python float power) *)
   Definition annualized_returns (nav : Q) (ndays : Z) : Q := if qle_b nav 0 then -1 else pow nav (252 / zq ndays) - 1.
